@@ -25,6 +25,8 @@ parent = z3.Function('parent', NS, NS)
 contents = z3.Function('contents', NS, SEQ_NODE.sort())
 idx = z3.Function('idx', NS, z3.IntSort())
 depth = z3.Function('depth', NS, z3.IntSort())
+height = z3.Function('height', NS, z3.IntSort())        # finite trees: a node is strictly lower than its parent
+bidi_class = z3.Function('bidi_class', z3.StringSort(), z3.StringSort())   # unicodedata.bidirectional (A-py: a total function of the character)
 is_tag = z3.Function('is_tag', NS, z3.BoolSort())
 is_doc = z3.Function('is_doc', NS, z3.BoolSort())
 is_navstr = z3.Function('is_navstr', NS, z3.BoolSort())
@@ -142,7 +144,7 @@ def install(world):
         def p(eng, args, st, node):
             return V(rt, fn(node_arg(eng, args[0], node)))
         return p
-    for nm, fn, rt in [('parent', parent, NODE), ('contents', contents, SEQ_NODE), ('idx', idx, INT), ('depth', depth, INT),
+    for nm, fn, rt in [('parent', parent, NODE), ('contents', contents, SEQ_NODE), ('idx', idx, INT), ('depth', depth, INT), ('height', height, INT),
                        ('is_tag', is_tag, BOOL), ('is_doc', is_doc, BOOL), ('is_navstr', is_navstr, BOOL),
                        ('is_comment', is_comment, BOOL), ('is_cdata', is_cdata, BOOL), ('is_pi', is_pi, BOOL),
                        ('is_decl', is_decl, BOOL), ('is_doctype', is_doctype, BOOL), ('text', text, STR), ('name', name, STR),
@@ -155,6 +157,12 @@ def install(world):
     def p_sel_is_null(eng, args, st, node):
         return V(BOOL, sel_is_null(eng.coerce(args[0], SEL, node).term))
     world.add_prim('sel_is_null', p_sel_is_null, VI.sel_is_null)
+
+    def p_bidi_class(eng, args, st, node):
+        return V(STR, bidi_class(eng.coerce(args[0], STR, node).term))
+    world.add_prim('bidi_class', p_bidi_class, VT.bidi_class)
+    import unicodedata
+    world.prims_by_obj[id(unicodedata.bidirectional)] = 'bidi_class'
 
     fake_parent_f = z3.Function('fake_parent', NS, NS)
 
@@ -458,6 +466,8 @@ def node_axioms(t):
     p = parent(t)
     return [
         depth(t) >= 0,
+        height(t) >= 0,
+        z3.Implies(p != NONE, height(p) > height(t)),
         idx(t) >= 0,
         z3.Implies(t == NONE, z3.And(z3.Not(is_tag(t)), z3.Not(is_navstr(t)), parent(t) == NONE, z3.Length(contents(t)) == 0)),
         z3.Implies(t != NONE, is_tag(t) != is_navstr(t)),
